@@ -244,6 +244,17 @@ def closure_templates(rng):
     reset_ids()
     out.append(P([Asg("x", Int(a)), Asg("f", Fn([], Block([OpAsg("x", "+", Int(1))]), free=["x"])),
                   Tuple([App(Id("f"), []), App(Id("f"), []), App(Id("f"), []), Id("x")])]))
+    # a captured variable read in the expression that re-assigns it, after a nested expression (if / match / call of a
+    # function literal): the captured value is read, the assignment is call-local
+    for nested in (lambda: If([Cmp([">"], [Id("k"), Int(0)])], [Block([Int(2)])], Block([Int(3)])),
+                   lambda: Switch([Cmp(["=="], [Id("k"), Int(1)])], [Block([Int(10)])], Block([Int(20)])) if False else
+                   If([Cmp(["=="], [Id("k"), Int(1)])], [Block([App(Fn([Param("q")], Block([Id("q")])), [Int(10)])])], Block([Int(20)])),
+                   lambda: App(Fn([], Block([Int(7)])), []),
+                   lambda: Tuple([Int(1), Int(2)]) if False else Neg(Int(4))):
+        reset_ids()
+        out.append(P([Asg("x", Int(a)), Asg("k", Int(1)),
+                      Asg("f", Fn([], Block([Asg("x", Bin("-", nested(), Id("x"))), Id("x")]), free=["x", "k"])),
+                      Tuple([App(Id("f"), []), App(Id("f"), []), Id("x")])]))
     # containers reached through captures stay shared
     reset_ids()
     out.append(P([Asg("data", Map(["x"], [Int(a)])),
